@@ -451,7 +451,17 @@ pub fn c15_ops() -> Vec<Op> {
     with_context(v)
 }
 
-/// value ops: the Typst text of a value (the same value must render the same whenever it is rendered)
+/// the tokens of a rendering, sorted: what stays the same when unordered components (and the operands of
+/// symmetric statements, which `==` treats as unordered) are printed in another order
+fn token_bag(s: &str) -> String {
+    let mut t: Vec<&str> = s.split_whitespace().collect();
+    t.sort_unstable();
+    t.join(" ")
+}
+
+/// value ops: the Typst text of a value, as a bag of tokens. "Equal values render identically up to the order of
+/// unordered components": whenever a value is rendered - first call of the process or after other calls, here or
+/// on another thread - it must print the same tokens (a renderer may remember an equal value's text and print that).
 pub fn c16_ops() -> Vec<Op> {
     let mut v = vec![];
     for x in small_values() {
@@ -460,14 +470,14 @@ pub fn c16_ops() -> Vec<Op> {
         }
         let x2 = x.clone();
         v.push(Op::new(format!("Typst text of {}", x.show()), move || match ops::typst(&x.build()) {
-            Ok(s) => s,
+            Ok(s) => token_bag(&s),
             Err(e) => e,
         }));
         if !x2.term.kids.is_empty() {
             v.push(Op::new(format!("Typst text of {} built on another thread", x2.show()), move || {
                 let x3 = x2.clone();
                 match std::thread::spawn(move || x3.build()).join() {
-                    Ok(n) => ops::typst(&n).unwrap_or_else(|e| e),
+                    Ok(n) => ops::typst(&n).map(|s| token_bag(&s)).unwrap_or_else(|e| e),
                     Err(_) => "builder thread died".to_string(),
                 }
             }));
